@@ -8,16 +8,18 @@
    Families (every labelled graph of a family is enumerated, so every relabelling of every
    graph is an input of its own):
      "full"   n <= FullN : every pair absent or one of ALL ten bond types
-     "typed"  n <= TypedN: every pair absent or one of {SINGLE, DOUBLE, AROMATIC_SINGLE,
+     "typed"  n in TypedNs: every pair absent or one of {SINGLE, DOUBLE, AROMATIC_SINGLE,
                            AROMATIC_DOUBLE, AROMATIC}
-     "class"  n in ClassNs: every pair absent / SINGLE / aromatic (the aromatic type rotates
-                           over the four aromatic types with the pair number)
+     "class"  n in ClassNs: every pair absent / SINGLE / other non-aromatic / aromatic (the
+                           aromatic type rotates over the four aromatic types, the other type
+                           over ANY, DOUBLE, TRIPLE, QUADRUPLE, COORDINATION, with the pair number)
+     "sa"     n in SaNs:   every pair absent / SINGLE / aromatic (rotating)
      "arom"   n in MonoNs: every pair absent / aromatic (rotating)       - ring perception
      "single" n in MonoNs: every pair absent / SINGLE, one chosen pair DOUBLE - rotatable bonds *)
 EXTENDS RingPerception, TLC
 
 CONSTANTS MaxN,       \* largest atom count (cycles of the complete graph on MaxN atoms are precomputed)
-          FullN, TypedN, ClassNs, MonoNs,
+          FullN, TypedNs, ClassNs, SaNs, MonoNs,
           PermAllN    \* graphs with up to this many atoms: relabelling law for EVERY permutation
 
 VARIABLES kind, n, tv, exp
@@ -36,44 +38,53 @@ TvOf(m, B) == [k \in 1..NPairs(m) |-> IF HasPair(B, PS[m][k][1], PS[m][k][2])
 
 T5 == {1, 2, 5, 6, 9}
 AromRot == <<9, 5, 6, 7>>
-\* option codes of a family; 100 = "aromatic, rotating", 101 = "SINGLE, but DOUBLE on pair 2"
+OtherRot == <<2, 0, 3, 8, 4>>
+\* option codes of a family; 100 = "aromatic, rotating", 101 = "SINGLE, but DOUBLE on pair 2",
+\* 102 = "neither SINGLE nor aromatic, rotating"
 Opts(fam) ==
   CASE fam = "full" -> {-1} \cup BondTypes
     [] fam = "typed" -> {-1} \cup T5
-    [] fam = "class" -> {-1, 1, 100}
+    [] fam = "class" -> {-1, 1, 102, 100}
+    [] fam = "sa" -> {-1, 1, 100}
     [] fam = "arom" -> {-1, 100}
     [] fam = "single" -> {-1, 101}
 CodeType(code, k) ==
   CASE code = 100 -> AromRot[((k - 1) % 4) + 1]
     [] code = 101 -> IF k = 2 THEN 2 ELSE 1
+    [] code = 102 -> OtherRot[((k - 1) % 5) + 1]
     [] OTHER -> code
 CodeTypes(codes, off) == [k \in DOMAIN codes |-> CodeType(codes[k], k + off)]
 
 FamNs(fam) ==
   CASE fam = "full" -> 0..FullN
-    [] fam = "typed" -> 0..TypedN
+    [] fam = "typed" -> TypedNs
     [] fam = "class" -> ClassNs
+    [] fam = "sa" -> SaNs
     [] fam = "arom" -> MonoNs
     [] fam = "single" -> MonoNs
-Fams == {"full", "typed", "class", "arom", "single"}
+Fams == {"full", "typed", "class", "sa", "arom", "single"}
 HeadLen(m) == IF m <= 1 THEN 0 ELSE m - 1
 
 \* a chunk fixes the family, the atom count and the bonds of atom 0
 Chunks == UNION {UNION {{<<fam, m, h>> : h \in [1..HeadLen(m) -> Opts(fam)]} : m \in FamNs(fam)} : fam \in Fams}
 
 (* ------------------------------------------------------------------ expected values *)
+\* a type map applied to the type sequence (equal to the set-level operators by InvTypeMaps)
+MapTv(t, F(_)) == [k \in DOMAIN t |-> IF t[k] = -1 THEN -1 ELSE F(t[k])]
+ToAny(t) == 0
 Expected(m, t) ==
   LET B == BondsOf(m, t)
-      Ea == AromEdgesOf(B)
-      na == StripAromatic(B)
-  IN [mu     |-> Mu(Ea),
-      hist   |-> SizeHist(MinBasis(CyclesIn(Ea, K), m), m),
-      ratoms |-> RingAtoms(Ea, K),
-      rbonds |-> RingBonds(Ea, K),
+      cs == CyclesIn(AromEdgesOf(B), K)
+      rb == UNION cs
+      na == MapTv(t, NoArom)
+  IN [mu     |-> Mu(AromEdgesOf(B)),
+      hist   |-> SizeHist(MinBasis(cs, m), m),
+      ratoms |-> Verts(rb),
+      rbonds |-> rb,
       rot    |-> EdgesOf(DeclRotatable(B, K)),
-      na     |-> TvOf(m, na),
-      no     |-> TvOf(m, StripOrder(B)),
-      rotNA  |-> EdgesOf(DeclRotatable(na, K))]
+      na     |-> na,
+      no     |-> MapTv(t, ToAny),
+      rotNA  |-> EdgesOf(DeclRotatable(BondsOf(m, na), K))]
 
 Set(k, m, t, e) == kind' = k /\ n' = m /\ tv' = t /\ exp' = e
 
@@ -83,7 +94,8 @@ Expand(c) ==
     LET t == CodeTypes(h, 0) \o CodeTypes(rest, HeadLen(m)) IN
     Set(fam, m, t, Expected(m, t))
 
-Init == kind = "root" /\ n = 0 /\ tv = <<>> /\ exp = <<>>
+\* the root state carries the pair numbering for the driver's self-check
+Init == kind = "root" /\ n = 0 /\ tv = <<>> /\ exp = PS
 Next ==
   \/ kind = "root" /\ \E c \in Chunks : Set("chunk", 0, c, <<>>)
   \/ kind = "chunk" /\ Expand(tv)
@@ -101,6 +113,7 @@ InvCycles ==
     /\ RingBonds(E, K) = RingBondsByReach(E)
     /\ RingBonds(Ea, K) = RingBondsByReach(Ea)
     /\ exp.mu = 0 <=> exp.rbonds = {}
+    /\ \A r \in Verts(E) : ReachIn(E, r) = ReachRounds(E, r)
     /\ Cardinality(CyclesIn(Ea, K)) <= 7 =>
          Independent(CyclesIn(Ea, K)) = IndependentDecl(CyclesIn(Ea, K))
 InvMinBasis ==
@@ -119,7 +132,12 @@ InvImplBasis ==
             /\ UNION RingSet(r) = exp.rbonds
             /\ LET f == RingFlags(r, Ea, n, exp.hist) IN f.valid /\ f.once /\ f.count /\ f.indep
 InvRotatable == IsInput => Law_Rotatable(n, B, K)
-InvTypeMaps == IsInput => Law_TypeMaps(n, B, K)
+InvTypeMaps ==
+  IsInput =>
+    /\ Law_TypeMaps(n, B, K)
+    /\ BondsOf(n, exp.na) = Op_RemoveAromaticity(B)
+    /\ BondsOf(n, exp.no) = Op_RemoveBondOrder(B)
+    /\ exp.ratoms = RingAtoms(Ea, K) /\ exp.rbonds = RingBonds(Ea, K)
 AllPerms(m) == {p \in [1..m -> Atoms(m)] : IsPerm(p, m)}
 InvRelabel ==
   IsInput =>
